@@ -122,6 +122,7 @@ bool ops_core(World &w, const Op &o) {
     if (!A.ok) viol(w, own, "wf.links", "after restrict: %s", A.broken.c_str());
     oracle_restrict(w, ri, B, A, S, fl, rc, e);
     if (rc == 0) models_after_restrict(w, ri, B, A);
+    if (rc == 0 && A.text() != B.text()) { R.aux_stale = true; R.aux_stale_numa = false; for (auto &kv : B.objs) if (kv.second.type == HWLOC_OBJ_NUMANODE && !A.find(kv.first)) R.aux_stale_numa = true; }
     // known finding: a level merged by this restrict on a topology whose objects' complete_cpuset starts below their cpuset (offline CPUs)
     if (rc == 0 && A.depth < B.depth) for (auto &kv : B.objs) if (kv.second.hassets && !kv.second.cs.empty() && kv.second.ccs.first() < kv.second.cs.first()) { w.hint["wf.hwloc_check:hwloc__check_children_cpusets"] = "merged_level_with_offline_cpus"; break; }
     return true;
@@ -157,6 +158,11 @@ bool ops_core(World &w, const Op &o) {
     gc = BSet::from(g->cpuset) | BSet::from(g->complete_cpuset); gn = BSet::from(g->nodeset) | BSet::from(g->complete_nodeset);
     bool dm = g->attr->group.dont_merge;
     Dump B; take_dump(t, B, DUMP_FULL);
+    // existing Groups before the call: when the new Group is merged into one of them and is not "more important" (same internal kind), the existing
+    // object is what survives - with its gp_index, userdata, subtype, name and infos
+    struct OldGroup { uint64_t gp; unsigned kind; uint64_t userdata; std::string line; }; std::map<hwloc_obj_t, OldGroup> oldgroups;
+    for (auto &kv : B.objs) if (kv.second.type == HWLOC_OBJ_GROUP && kv.second.ptr) oldgroups[kv.second.ptr] = {kv.first, kv.second.ptr->attr->group.kind, kv.second.userdata, B.obj_line(kv.second, false)};
+    unsigned newkind = g->attr->group.kind;
     errno = 0; hwloc_obj_t res = hwloc_topology_insert_group_object(t, g); e = errno;
     r.ev("group r%d how=%d cs=%s ns=%s dm=%d -> %s", ri, how, gc.str().c_str(), gn.str().c_str(), (int)dm, !res ? "NULL" : res == g ? "inserted" : "existing");
     if (!res) {
@@ -170,11 +176,18 @@ bool ops_core(World &w, const Op &o) {
       // the returned object is in the tree
       bool found = false; Dump A; take_dump(t, A, DUMP_TREE); for (auto &kv : A.objs) if (kv.second.ptr == res) found = true;
       if (!found) viol0(w, own, "group.result_not_in_tree", "insert_group_object returned an object that is not in the topology");
+      auto og = oldgroups.find(res);
+      if (res != g && og != oldgroups.end() && og->second.kind == newkind && !dm) {   // a dont_merge Group deliberately takes the place of a mergeable one
+        r.count("probe.group_merged_into_same_kind_group");
+        if (res->gp_index != og->second.gp || (uint64_t)(uintptr_t)res->userdata != og->second.userdata) viol0(w, own, "group.merged_existing_altered", "a Group with the sets and kind of an existing Group was merged into it, but the existing Group came back with gp_index %llu (was %llu) and userdata %llu (was %llu)", (unsigned long long)res->gp_index, (unsigned long long)og->second.gp, (unsigned long long)(uintptr_t)res->userdata, (unsigned long long)og->second.userdata);
+      }
     }
     return true;
   }
   if (k == "allow") {
-    int mode = (int)(o.u("mode") % 5); unsigned long fl = mode == 0 ? HWLOC_ALLOW_FLAG_ALL : mode == 1 ? HWLOC_ALLOW_FLAG_LOCAL_RESTRICTIONS : mode == 2 ? HWLOC_ALLOW_FLAG_CUSTOM : mode == 3 ? (HWLOC_ALLOW_FLAG_ALL | HWLOC_ALLOW_FLAG_CUSTOM) : (1UL << 5);
+    int mode = (int)(o.u("mode") % 5);
+    if (mode == 1 && R.last.thissystem) mode = 4;   // LOCAL_RESTRICTIONS on a this-system replica would read the cgroup files of the real root file system
+    unsigned long fl = mode == 0 ? HWLOC_ALLOW_FLAG_ALL : mode == 1 ? HWLOC_ALLOW_FLAG_LOCAL_RESTRICTIONS : mode == 2 ? HWLOC_ALLOW_FLAG_CUSTOM : mode == 3 ? (HWLOC_ALLOW_FLAG_ALL | HWLOC_ALLOW_FLAG_CUSTOM) : (1UL << 5);
     BSet cs = sel_cpuset(R, (int)o.u("cm"), o.u("bits")), ns = sel_nodeset(R, (int)o.u("nm"), o.u("bits") >> 7);
     bool givec = mode == 2 ? (o.u("give") & 1) : (o.u("give") % 7 == 0), given = mode == 2 ? (o.u("give") & 2) : (o.u("give") % 11 == 0);
     hwloc_bitmap_t hc = givec ? cs.to_hwloc() : nullptr, hn = given ? ns.to_hwloc() : nullptr;
